@@ -98,7 +98,7 @@ theorem unescapeAux_inv (e : Bytes) :
     · intro s hs
       simp only [unescapeAux, Bool.false_eq_true, if_false, Option.some.injEq] at hs
       subst hs
-      exact ⟨fun _ h => by cases h, rfl⟩
+      exact ⟨(fun _ h => nomatch h), rfl⟩
     · intro s hs
       simp [unescapeAux] at hs
   | cons c rest ih =>
